@@ -44,7 +44,7 @@ def check_partial_reads(ctx, g):
                                 "the number of bytes it delivers depends on internal buffering (e.g. a ZlibDecoder inflates at most one input buffer per call), so large inputs are decoded from a partly filled buffer", None, None)
     if not PARTIAL.search("std::io::Read::read") or PARTIAL.search("std::io::Read::read_exact"):
         ctx.violate("io.complete-reads", "fixture", "the partial-read matcher fails its positive/negative example")
-    ctx.rule("io.complete-reads", complete, floor=340, note=f"complete reads (read_exact/read_to_end) on decode paths; partial-read calls found: {n} (expected 0; matcher fixture checked)")
+    ctx.rule("io.complete-reads", complete, floor=300, note=f"complete reads (read_exact/read_to_end) on decode paths; partial-read calls found: {n} (expected 0; matcher fixture checked)")
 
 
 PARTIAL_W = __import__("re").compile(r"(?:std::io::Write|AsyncWriteExt|WriteExt|AsyncWrite)::(write|write_vectored|poll_write|write_buf)$")
